@@ -325,7 +325,9 @@ class Check:
     # -- verdict ---------------------------------------------------------------------------------------------------
     def finish(self, level: str = 'proof', rule: str = '', explanation: str = '') -> int:
         known = load_known()
-        open_k = [k for k in known if k.get('property') == self.prop and k.get('status') == 'open']
+        # signatures start with the id of the property whose clause failed; a check that re-runs another property's correspondence
+        # (C11 -> C01, C18 -> C05) can meet that property's listed findings, so matching is by signature over all open entries
+        open_k = [k for k in known if k.get('status') == 'open']
         lines = []
         unlisted: list[Failure] = []
         seen_sigs = []
@@ -338,7 +340,7 @@ class Check:
             else:
                 unlisted.append(f)
         self.known_seen = seen_sigs
-        not_seen = [k['signature'] for k in open_k if not any(fnmatch.fnmatchcase(s, k['signature']) for s in seen_sigs)]
+        not_seen = [k['signature'] for k in open_k if k.get('property') == self.prop and not any(fnmatch.fnmatchcase(s, k['signature']) for s in seen_sigs)]
         if not_seen:
             self.notes.append('listed open findings not reproduced in this run: ' + ', '.join(not_seen))
         rc = 0
